@@ -875,6 +875,15 @@ def _cyc_ast():
     def t2uint(v):
         return ("enum", "Type2::UintValue", {"value": v, "span": OPAQUE})
 
+    def t2paren(*t2s):
+        return ("enum", "Type2::ParenthesizedType", {"pt": ty(*t2s), "span": OPAQUE, "comments_before_type": ("None",), "comments_after_type": ("None",)})
+
+    def t2array(*ges):
+        return ("enum", "Type2::Array", {"group": group(gchoice(*ges)), "span": OPAQUE, "comments_before_group": ("None",), "comments_after_group": ("None",)})
+
+    def ge_value(t2):
+        return ("enum", "GroupEntry::ValueMemberKey", {"ge": ("enum", "ValueMemberKeyEntry", {"occur": ("None",), "member_key": ("None",), "entry_type": ty(t2)}), "span": OPAQUE})
+
     def ty(*t2s):
         return ("enum", "Type", {"type_choices": MutList([("enum", "TypeChoice", {"type1": ("enum", "Type1", {"type2": t, "operator": ("None",), "span": OPAQUE,
                                  "comments_after_type": ("None",)}), "comments_before_type": ("None",), "comments_after_type": ("None",)}) for t in t2s]), "span": OPAQUE})
@@ -921,6 +930,7 @@ def r_cyclic(ctx):
     A = _cyc_ast()
     ident, t2name, t2text, t2uint, trule, grule, ge_name, ge_member, ge_inline, gchoice, group, cddl = (A[k] for k in (
         "ident", "t2name", "t2text", "t2uint", "trule", "grule", "ge_name", "ge_member", "ge_inline", "gchoice", "group", "cddl"))
+    t2paren, t2array, ge_value = A["t2paren"], A["t2array"], A["ge_value"]
     cfg = absint.default_cfg
     free = {}
     for file in CYC_FILES:
@@ -932,6 +942,10 @@ def r_cyclic(ctx):
         "a = b, b = a": cddl(trule("a", t2name("b")), trule("b", t2name("a"))),
         "a = b, b = c, c = a": cddl(trule("a", t2name("b")), trule("b", t2name("c")), trule("c", t2name("a"))),
         "a = b / \"x\", b = a / 1": cddl(trule("a", t2name("b"), t2text("x")), trule("b", t2name("a"), t2uint(1))),
+        # the cycle closes through a parenthesised type / a two-element array (the shapes text_value_from_type2 looks into)
+        "a = (b), b = (a)": cddl(trule("a", t2paren(t2name("b"))), trule("b", t2paren(t2name("a")))),
+        "a = b, b = (c), c = (b)": cddl(trule("a", t2name("b")), trule("b", t2paren(t2name("c"))), trule("c", t2paren(t2name("b")))),
+        "a = [b, 1], b = [a, 1]": cddl(trule("a", t2array(ge_value(t2name("b")), ge_value(t2uint(1)))), trule("b", t2array(ge_value(t2name("a")), ge_value(t2uint(1))))),
         "a = b / c, b = d, c = d, d = \"x\" (acyclic diamond)": cddl(trule("a", t2name("b"), t2name("c")), trule("b", t2name("d")), trule("c", t2name("d")),
                                                                   trule("d", t2text("x"))),
     }
